@@ -160,6 +160,7 @@ func (e *Engine) VerifyFunc(b Bound) (u *Unit) {
 		}
 		po := u.addObl("post", "postcondition: "+en.Src, fmt.Sprintf("%s:%d", en.File, en.Line), "true", g)
 		po.Extra = extra
+		po.Parts = goals
 	}
 	// a reachable return must exist (vacuity guard on the body encoding)
 	if len(fr.rets) > 0 {
